@@ -40,6 +40,8 @@ ViewClauses(e, k, v, tag) ==
      <<"lengthsUnchanged:" \o tag, v.chromlens = ChromLenSeq(t)>>,
      <<"binLabelsRenamed:" \o tag, v.bin_chroms = [b \in DOMAIN t |-> nm[t[b][1] + 1]] /\ v.bin_coords = [b \in DOMAIN t |-> <<t[b][2], t[b][3]>>]>>,
      <<"pixelsUnchanged:" \o tag, v.pixels = e.case.px>>,
+     <<"joinedPixelsRenamed:" \o tag, v.join_chroms = [q \in DOMAIN e.case.px |->
+          <<nm[t[e.case.px[q][1] + 1][1] + 1], nm[t[e.case.px[q][2] + 1][1] + 1]>>]>>,
      <<"lookupsByNewName:" \o tag, All(v.fetches, LAMBDA q :
           LET w == <<ChromFirst(t, q.c), ChromLast(t, q.c) + 1, ChromFirst(t, q.c2), ChromLast(t, q.c2) + 1>> IN
             /\ q.err = ""
